@@ -45,6 +45,8 @@ func VerifC19Replace(s1, s2, s3, t1, t2, t3, compress int) {
 	}
 	verifAssert(verifSame(out, want), "replaced-list-is-encoded")
 	verifAssert(l.Length() == len(want), "length-of-replaced-list")
+	verifHavoc("scribble-out", out)
+	verifAssert(verifSame(l.ToBytes(), want), "overwriting-the-encoded-bytes-changes-nothing")
 	verifReach("end")
 }
 
@@ -151,6 +153,9 @@ func VerifC19EditInPlace(s1, s2, s3, idx, t, swap int) {
 	out := l.ToBytes()
 	verifAssert(verifSame(out, refEncode(want)), "edited-names-are-encoded")
 	verifAssert(l.Length() == len(refEncode(want)), "length-of-edited-list")
+	// the bytes handed out are the caller's: scribbling over them changes no later encoding
+	verifHavoc("scribble-out", out)
+	verifAssert(verifSame(l.ToBytes(), refEncode(want)), "overwriting-the-encoded-bytes-changes-nothing")
 	verifReach("end")
 }
 
